@@ -399,6 +399,10 @@ public:
       ASMJIT_ASSERT(_search_start >= released_area_size);
       _search_start -= released_area_size;
       _largest_unused_area += released_area_size;
+
+      if (area_used() == initial_area_start()) {
+        add_flags(kFlagEmpty);
+      }
     }
     else {
       _search_start = Support::min(_search_start, released_area_start);
